@@ -376,45 +376,80 @@ def run_fragment(body: Sequence[ast.stmt], names: Dict[str, Any], attrs: Optiona
         else:
             env[t.value.id] = base
 
+    def list_recv(e):
+        """(where, key, [indices]) of a python list reached from a name or an attribute through integer subscripts, else None"""
+        from .astutil import attr_chain as _lc
+
+        idxs = []
+        while isinstance(e, ast.Subscript):
+            try:
+                i_ = fold(e.slice)
+            except Unfoldable:
+                return None
+            if isinstance(i_, bool) or not isinstance(i_, int):
+                return None
+            idxs.insert(0, i_)
+            e = e.value
+        if isinstance(e, ast.Name) and isinstance(env.get(e.id), list):
+            root = env[e.id]
+            where = ("env", e.id)
+        elif isinstance(e, ast.Attribute) and _lc(e) is not None and isinstance(attrs.get(_lc(e)), list):
+            root = attrs[_lc(e)]
+            where = ("attrs", _lc(e))
+        else:
+            return None
+        cur = root
+        for i_ in idxs:
+            if not isinstance(cur, list) or not (-len(cur) <= i_ < len(cur)):
+                return None
+            cur = cur[i_]
+        if not isinstance(cur, list):
+            return None
+        return where[0], where[1], idxs
+
     def list_method(c: ast.Call):
-        """append / extend / insert / pop / reverse on a list bound to a name: rebinds the name, returns the call's value"""
-        nm = c.func.value.id
-        refuse_shared(nm)
-        cur = env[nm]
-        mk = type(cur) if isinstance(cur, PySeq) else list
+        """append / extend / insert / pop / reverse / remove on a list bound to a name or an attribute (also an element of such
+        a list reached by integer subscripts): rebinds the root, returns the call's value"""
+        import copy as _cp
+
+        path = list_recv(c.func.value)
+        if path is None:
+            raise Unfoldable("list method on something that is not a list value")
+        where, key, idxs = path
+        if where == "env":
+            refuse_shared(key)
+        root = _cp.deepcopy(env[key] if where == "env" else attrs[key])
+        cur = root
+        for i_ in idxs:
+            cur = cur[i_]
         a = [fold(x) for x in c.args]
         m = c.func.attr
+        out = None
         if m == "append" and len(a) == 1:
-            env[nm] = mk(list(cur) + [a[0]])
-            return None
-        if m == "extend" and len(a) == 1 and isinstance(a[0], list):
-            env[nm] = mk(list(cur) + list(a[0]))
-            return None
-        if m == "insert" and len(a) == 2 and isinstance(a[0], int):
-            t = list(cur)
-            t.insert(a[0], a[1])
-            env[nm] = mk(t)
-            return None
-        if m == "remove" and len(a) == 1:
-            t = list(cur)
+            cur.append(a[0])
+        elif m == "extend" and len(a) == 1 and isinstance(a[0], list):
+            cur.extend(list(a[0]))
+        elif m == "insert" and len(a) == 2 and isinstance(a[0], int):
+            cur.insert(a[0], a[1])
+        elif m == "remove" and len(a) == 1:
             try:
-                t.remove(a[0])
+                cur.remove(a[0])
             except ValueError as exc:
                 raise FragRaise() from exc
-            env[nm] = mk(t)
-            return None
-        if m == "reverse" and not a:
-            env[nm] = mk(reversed(list(cur)))
-            return None
-        if m == "pop" and len(a) <= 1 and cur:
-            t = list(cur)
+        elif m == "reverse" and not a:
+            cur.reverse()
+        elif m == "pop" and len(a) <= 1 and cur:
             try:
-                v = t.pop(*a)
+                out = cur.pop(*a)
             except (IndexError, TypeError) as exc:
                 raise Unfoldable(str(exc))
-            env[nm] = mk(t)
-            return v
-        raise Unfoldable(f"list method {m}")
+        else:
+            raise Unfoldable(f"list method {m}")
+        if where == "env":
+            env[key] = root
+        else:
+            attrs[key] = root
+        return out
 
     def bind(t, v):
         if isinstance(t, ast.Name):
@@ -449,7 +484,7 @@ def run_fragment(body: Sequence[ast.stmt], names: Dict[str, Any], attrs: Optiona
                 raise Unfoldable("step budget exhausted")
             if isinstance(st, ast.Expr):
                 c = st.value
-                if isinstance(c, ast.Call) and isinstance(c.func, ast.Attribute) and c.func.attr in ("append", "extend", "insert", "pop", "reverse", "remove") and isinstance(c.func.value, ast.Name) and isinstance(env.get(c.func.value.id), list):
+                if isinstance(c, ast.Call) and isinstance(c.func, ast.Attribute) and c.func.attr in ("append", "extend", "insert", "pop", "reverse", "remove") and list_recv(c.func.value) is not None:
                     list_method(c)
                 elif isinstance(c, ast.Call) and isinstance(c.func, ast.Attribute) and c.func.attr == "index_fill_" and len(c.args) == 3 and isinstance(c.func.value, ast.Name) and isinstance(env.get(c.func.value.id), list):
                     dim_, idx_, val_ = fold(c.args[0]), fold(c.args[1]), fold(c.args[2])
@@ -528,7 +563,7 @@ def run_fragment(body: Sequence[ast.stmt], names: Dict[str, Any], attrs: Optiona
             if isinstance(st, ast.Assign):
                 try:
                     c = st.value
-                    if isinstance(c, ast.Call) and isinstance(c.func, ast.Attribute) and c.func.attr == "pop" and isinstance(c.func.value, ast.Name) and isinstance(env.get(c.func.value.id), list):
+                    if isinstance(c, ast.Call) and isinstance(c.func, ast.Attribute) and c.func.attr == "pop" and list_recv(c.func.value) is not None:
                         v = list_method(c)
                     else:
                         v = fold(st.value)
